@@ -101,6 +101,7 @@ class Parser:
         name = self.ident()
         while self.accept("::"): name = self.ident()
         if self.peek() == "<":
+            if name == "Option": self.next(); el = self.ty(); self.expect(">"); return ("option", el)      # phase 4e (handler mode only)
             if name != "Vec": self.fail("generic type")
             self.next(); el = self.ty(); self.expect(">"); return ("vec", el)
         return ("name", name)
@@ -180,7 +181,15 @@ class Parser:
             elif self.kind() == "id" and p == "while":
                 self.next(); c = self.expr(nostruct=True); b = self.block(); stmts.append(("while", c, b, ln))
             elif self.kind() == "id" and p == "for":
-                self.next(); v = self.ident(); self.expect("in"); it = self.expr(nostruct=True); b = self.block()
+                self.next()
+                if self.accept("("):                       # phase 4e: `for (x, y) in a.iter_mut().zip(..)` (handler mode; refused by the main lowering)
+                    ps = []
+                    while not self.accept(")"):
+                        ps.append(self.ident())
+                        if not self.accept(","): self.expect(")"); break
+                    v = ("tuplepat", tuple(ps))
+                else: v = self.ident()
+                self.expect("in"); it = self.expr(nostruct=True); b = self.block()
                 stmts.append(("for", v, it, b, ln))
             elif self.kind() == "id" and p in ("fn", "struct", "impl", "use", "const", "static", "match", "unsafe", "macro_rules", "mod"):
                 self.fail(f"`{p}` inside a function body")
@@ -194,7 +203,7 @@ class Parser:
                     stmts.append(("expr", e, ln))
                 elif self.peek() == "}":
                     tail = e
-                elif e[0] in ("if", "blockexpr"):
+                elif e[0] in ("if", "iflet", "blockexpr"):
                     tail = e      # block-like expression statement; decided at the next iteration
                 else:
                     self.fail("`;` expected")
@@ -313,7 +322,14 @@ class Parser:
         if k == "id":
             if p == "if":
                 self.next()
-                if self.peek() == "let": self.fail("if let")
+                if self.peek() == "let":
+                    # phase 4e: `if let Some(x) = e { .. }` (node `iflet`; handler mode only, the main lowering refuses the node)
+                    self.next()
+                    if self.peek() != "Some": self.fail("if let (pattern other than `Some(x)`)")
+                    self.next(); self.expect("("); pv = self.ident(); self.expect(")"); self.expect("=")
+                    sc = self.expr(nostruct=True); a = self.block(); b = None
+                    if self.accept("else"): b = self.block()
+                    return ("iflet", pv, sc, a, b)
                 c = self.expr(nostruct=True); a = self.block(); b = None
                 if self.accept("else"):
                     if self.peek() == "if": b = ([], self.primary())
@@ -2033,6 +2049,7 @@ class FnLower2(FnLower):
     def for_loop(self, s, stmts, i, tail, env, ops, k, nested):
         """`for v in lo..hi` / `for v in (lo..hi).rev()`: exact trip count `hi - lo` (truncated: empty when hi <= lo), no fuel needed"""
         _, var, it, body, ln = s
+        if not isinstance(var, str): self.fail("`for` with a tuple pattern (accepted in handler mode only)", ln)
         if not k.toplevel and self.opts.get("nested_loops"): return self.for_loop_nested(s, stmts, i, tail, env, ops, k, nested)     # phase 4c
         if not k.toplevel and not self.loop_stack: self.fail("loop whose continuation is not the function's own (nested in a value-`if`/merge)", ln)
         it = strip_paren(it); rev = False
@@ -3095,7 +3112,11 @@ def gen_all(repo):
     """all generated files of the translator: {file name: text}"""
     try:
         tr = Translator(repo); res = {}
-        for name, spec in FILES: res[name] = ladder_file(tr, spec) if spec.get("ladder") else tr.run_file(spec)
+        for name, spec in FILES:
+            if spec.get("handler_mode"):      # phase 4e: generic butterfly network + NTTTables wrappers (tools/rs2lean_dwt.py)
+                import rs2lean_dwt
+                res[name] = rs2lean_dwt.generate(sys.modules[__name__], tr, spec)
+            else: res[name] = ladder_file(tr, spec) if spec.get("ladder") else tr.run_file(spec)
         return res
     except Unsupported as ex: raise SystemExit("extract.py: " + str(ex))
 
@@ -3379,6 +3400,27 @@ TABLE_WORD2 = [
 ]
 FILES += [
     ("Word2Fns.lean", {"ns": "GenW2", "imports": ["Heathcliff.Gen.WordFns"], "table": TABLE_WORD2, "opens": ["HC.GenW"], "prelude": PRELUDE_WORD2}),
+]
+# Gen/DwtFns.lean (phase 4e, handler mode - tools/rs2lean_dwt.py): the butterfly network `DWTHandler::transform_to_rev` / `transform_from_rev`
+# (src/util/dwthandler.rs, generic over `trait Arithmetic`) and the `NTTTables` wrappers that run it with `ModArithLazy` (src/util/ntt.rs)
+UD = "src/util/dwthandler.rs"
+NTT_VIEW = {"coeff_count_power": "usize", "modulus": "Modulus", "inv_degree_modulo": "MultiplyU64ModOperand",
+            "root_powers": "Vec<MultiplyU64ModOperand>", "inv_root_powers": "Vec<MultiplyU64ModOperand>", "ntt_handler": "NTTHandler"}
+FILES += [
+    ("DwtFns.lean", {"ns": "GenD", "handler_mode": True, "imports": ["Heathcliff.Gen.NttFns"],
+                     "trait": {"file": UD, "name": "Arithmetic", "types": {"Value": "V", "Root": "R", "Scalar": "S"},
+                               "methods": ["add", "sub", "mul_root", "mul_scalar", "guard"]},
+                     "handler": {"file": UD, "name": "DWTHandler"},
+                     "table": [
+        {"file": UD, "fn": "transform_to_rev", "generic": True, "model": "runFwdA (Model/NTT.lean)"},
+        {"file": UD, "fn": "transform_from_rev", "generic": True, "model": "runInvA, then map mulScalar"},
+        {"file": UT, "instance": {"file": UT, "type": "ModArithLazy", "ns": "GenN"}},
+        {"file": UT, "view": {"file": UT, "name": "NTTTables", "fields": NTT_VIEW}},
+        {"file": UT, "fn": "ntt_negacyclic_harvey_lazy", "impl": "NTTTables", "model": "nttLazy"},
+        {"file": UT, "fn": "ntt_negacyclic_harvey", "impl": "NTTTables", "model": "ntt"},
+        {"file": UT, "fn": "inverse_ntt_negacyclic_harvey_lazy", "impl": "NTTTables", "model": "inttLazy"},
+        {"file": UT, "fn": "inverse_ntt_negacyclic_harvey", "impl": "NTTTables", "model": "intt"},
+    ]}),
 ]
 
 if __name__ == "__main__":
